@@ -27,7 +27,9 @@ Next == \E i \in 1..Len(NODES[node]) : Follow(NODES[node][i])
 Spec == Init /\ [][Next]_vars
 
 EdgesLegal == \A i \in 1..Len(NODES[node]) : EdgeMove(NODES[node][i]) \in Legal(pos)
-LeafDepth == (NODES[node] = <<>> => depth = BookDepth) /\ depth <= BookDepth
+\* traversal terminates: no path is longer than the bound (the book shipped today has every leaf at
+\* depth 8; that number is reported, not demanded - the property does not fix it)
+LeafDepth == depth <= BookDepth
 ChildrenInside == \A i \in 1..Len(NODES[node]) : NODES[node][i][3] \in 2..Len(NODES)
 EmitInv == PrintT(<<"BOOK", ToJson([node |-> node, depth |-> depth, fen |-> ToFEN(pos)])>>)
 =============================================================================
